@@ -119,7 +119,8 @@ func (b *Batch) Get(key []byte) ([]byte, error) {
 		if logRecord.Type == datafile.LogRecordDeleted {
 			return nil, ErrKeyNotFound
 		}
-		return logRecord.Value, nil
+		// 返回副本: 暂存记录的缓冲区会被后续的 Put 复用, 调用方也可能修改返回的切片
+		return append([]byte{}, logRecord.Value...), nil
 	}
 
 	// 记录未缓存则执行查询
